@@ -84,7 +84,7 @@ class C19(Prop):
             "contents; names matching / not matching `exclude`; standard input `-` fed with a pool file's bytes, two of them not valid UTF-8; "
             "in luacheck mode unknown options that are prefixes of real ones) x 6 configurations x --allow-warnings x --no-exclude x "
             "--no-summary x 5 output modes x num-threads; per-file outcomes come from Checker::test_on through the "
-            "harness, exit status/summary/printed diagnostics from the real binary; non-trivial = at least one "
+            "harness, exit status/summary/printed diagnostics from the real binary; plus `validate-config` on valid and invalid configurations in every style, from a file and from stdin (status 0 exactly when valid); non-trivial = at least one "
             "problem file or exclusion involved; distinct = distinct (args, options, config)")
     trusted_base = [
         "modelled: counting, exclusion order and exit arithmetic of selene/src/main.rs (Pipeline/Exit.v)",
